@@ -21,7 +21,8 @@ RULE = ("(a) enumerated: every unordered pair of calls from {store_metadata(p,F,
         "document is absent in some sequential order. No deadlock. "
         "evaluations = controlled executions. Non-trivial = >=1 preemption inside a call and the two calls touch "
         "the same document or one of them deletes; distinct key = (start, program, schedule, outcomes)."
-        ' Family different-documents: store || store / delete / read on DIFFERENT documents (colliding pid+format concatenations, same pid other format, other pid same format), through one instance and through two, every single-preemption schedule: such calls commute.')
+        ' Family different-documents: store || store / delete / read on DIFFERENT documents (colliding pid+format concatenations, same pid other format, other pid same format), through one instance and through two, every single-preemption schedule: such calls commute.'
+        " Round 9 family sequenced: one caller issues two calls one after the other (store then delete, delete then store) while another caller's delete / store overlaps them; the sequential orders that explain an execution keep each caller's program order; conflict-directed <=2 (quick) / <=3 (thorough) preemptions, each under both orders of every directory listing (sorted / reverse-sorted - the file system's choice).")
 EXHAUSTIVE_NOTE = "part (a) enumerates all 36 pairs x 3 starts x all schedules up to the stated preemption bound"
 ASSUMPTIONS = c07.ASSUMPTIONS
 SHRINK_BUDGET = 60.0
